@@ -514,8 +514,140 @@ func genReframedPair6(r *Rng) (bad, good []byte) {
 	return b, good
 }
 
+// tlvNode6 is one option found in a datagram at any nesting level.
+type tlvNode6 struct {
+	lenOff, valOff, valLen int
+	anc                    []int // offsets of the length fields of the enclosing options, outermost first
+}
+
+// tlvTree6 walks the options of a DHCPv6 datagram recursively through the container
+// layouts (relay message 9, IA_NA 3, IA_TA 4, IA address 5, IA_PD 25, IA prefix 26,
+// vendor options 17, NTP server 56, 4RD 97) and returns every option it finds.
+func tlvTree6(b []byte) []tlvNode6 {
+	var out []tlvNode6
+	var opts func(lo, hi int, anc []int, depth int)
+	var msg func(lo, hi int, anc []int, depth int)
+	opts = func(lo, hi int, anc []int, depth int) {
+		for i := lo; i+4 <= hi; {
+			c := int(b[i])<<8 | int(b[i+1])
+			l := int(b[i+2])<<8 | int(b[i+3])
+			if i+4+l > hi {
+				return
+			}
+			n := tlvNode6{lenOff: i + 2, valOff: i + 4, valLen: l, anc: append([]int{}, anc...)}
+			out = append(out, n)
+			sub := append(append([]int{}, anc...), i+2)
+			hdr := map[int]int{3: 12, 4: 4, 5: 24, 25: 12, 26: 25, 17: 4, 56: 0, 97: 0}
+			if depth < 6 {
+				if c == 9 {
+					msg(i+4, i+4+l, sub, depth+1)
+				} else if h, ok := hdr[c]; ok && l >= h && len(anc) < 6 {
+					opts(i+4+h, i+4+l, sub, depth+1)
+				}
+			}
+			i += 4 + l
+		}
+	}
+	msg = func(lo, hi int, anc []int, depth int) {
+		if hi-lo < 4 {
+			return
+		}
+		h := 4
+		if b[lo] == 12 || b[lo] == 13 {
+			h = 34
+		}
+		if hi-lo >= h {
+			opts(lo+h, hi, anc, depth)
+		}
+	}
+	msg(0, len(b), nil, 0)
+	return out
+}
+
+// genResized6: an encoded message in which ONE option, at any nesting level (a
+// sub-option of an identity association, an NTP sub-option, a vendor sub-option, an
+// option of an encapsulated message), gets a value of another plausible length - 0,
+// 1, 2, 4, 6, 8, 16, 17, 20 octets, one more or less, half, double - with the length
+// fields of the option and of every option around it adjusted, so that the framing
+// stays consistent at every level and only that option's own layout rule can object
+// (seeded change C05-12: an NTP address sub-option accepting a 4-octet value).
+func genResized6(r *Rng) []byte {
+	b := genMsg6(r, r.Range(0, 2), false).ToBytes()
+	nodes := tlvTree6(b)
+	if len(nodes) == 0 {
+		return b
+	}
+	n := nodes[r.Intn(len(nodes))]
+	if r.Chance(1, 2) {
+		// prefer the innermost options
+		for k := 0; k < 4; k++ {
+			m := nodes[r.Intn(len(nodes))]
+			if len(m.anc) > len(n.anc) {
+				n = m
+			}
+		}
+	}
+	nl := r.Pick([]int{0, 1, 2, 4, 4, 6, 8, 16, 16, 17, 20, n.valLen + 1, n.valLen - 1, n.valLen / 2, n.valLen * 2, n.valLen + 4, n.valLen - 4, n.valLen + 16, n.valLen - 16})
+	if r.Chance(1, 3) {
+		// the other address family's length where an address is expected, and the
+		// neighbouring widths of the fixed-width integers
+		switch n.valLen {
+		case 16:
+			nl = 4
+		case 4:
+			nl = r.Pick([]int{16, 2, 8, 3, 5})
+		case 2:
+			nl = r.Pick([]int{1, 4, 3})
+		case 1:
+			nl = r.Pick([]int{0, 2, 4})
+		case 24:
+			nl = r.Pick([]int{12, 20, 25})
+		case 25:
+			nl = r.Pick([]int{24, 13, 9})
+		}
+	}
+	if nl < 0 || nl == n.valLen {
+		nl = n.valLen + 2
+	}
+	old := b[n.valOff : n.valOff+n.valLen]
+	var nv []byte
+	if nl <= len(old) {
+		if r.Bool() {
+			nv = append(nv, old[:nl]...)
+		} else {
+			nv = append(nv, old[len(old)-nl:]...)
+		}
+	} else {
+		nv = append(nv, old...)
+		ext := r.Bytes(nl - len(old))
+		if r.Bool() {
+			for i := range ext {
+				ext[i] = 0
+			}
+		}
+		nv = append(nv, ext...)
+	}
+	delta := nl - n.valLen
+	for _, o := range append(append([]int{}, n.anc...), n.lenOff) {
+		l := int(b[o])<<8 | int(b[o+1]) + delta
+		if l < 0 || l > 65535 {
+			return b
+		}
+	}
+	out := append([]byte{}, b[:n.valOff]...)
+	out = append(out, nv...)
+	out = append(out, b[n.valOff+n.valLen:]...)
+	for _, o := range append(append([]int{}, n.anc...), n.lenOff) {
+		l := (int(out[o])<<8 | int(out[o+1])) + delta
+		out[o], out[o+1] = byte(l>>8), byte(l)
+	}
+	return out
+}
+
 func genWire6(r *Rng) ([]byte, string) {
-	switch r.Intn(14) {
+	switch r.Intn(17) {
+	case 14, 15, 16:
+		return genResized6(r), "value-resized-reframed"
 	case 12, 13:
 		return genReframed6(r), "value-damaged-reframed"
 	case 0, 1, 2, 3:
